@@ -64,8 +64,8 @@ pub struct TraceOutcome {
     pub err: String,
 }
 
-fn trace_one<T: Serialize + ?Sized>(v: &T, fail_at: Option<usize>) -> TraceOutcome {
-    let mut s = TokSer::new(fail_at);
+fn trace_one<T: Serialize + ?Sized>(v: &T, fail_at: Option<usize>, binary: bool) -> TraceOutcome {
+    let mut s = if binary { TokSer::binary(fail_at) } else { TokSer::new(fail_at) };
     let r = catch_unwind(AssertUnwindSafe(|| v.serialize(&mut s)));
     let (ok, panicked, err) = match r {
         Ok(Ok(())) => (true, None, String::new()),
@@ -83,7 +83,7 @@ pub struct TracePair {
 
 enum Mode<'p> {
     Write { fmt: Format, plan: &'p [WriteStep], tail: u32, flush_fail_at: Option<u32> },
-    Trace { fail_at: Option<usize> },
+    Trace { fail_at: Option<usize>, binary: bool },
 }
 
 pub enum PairOut {
@@ -141,12 +141,12 @@ impl<'p, D: Decl> ShapeVisitor<D> for SerVisitor<'p, D> {
                 };
                 Ok(PairOut::Write(SerPair { a, b, inner, reprs, aux: String::new() }))
             }
-            Mode::Trace { fail_at } => {
-                let a = trace_one(&ha, fail_at);
-                let b = trace_one(&hb, fail_at);
+            Mode::Trace { fail_at, binary } => {
+                let a = trace_one(&ha, fail_at, binary);
+                let b = trace_one(&hb, fail_at, binary);
                 let inner = match (&first_inner, self.bare) {
                     // The inner value is one call shorter (no serialize_newtype_struct): shift k.
-                    (Some(i), true) => Some(trace_one(i, fail_at.and_then(|k| k.checked_sub(1)))),
+                    (Some(i), true) => Some(trace_one(i, fail_at.and_then(|k| k.checked_sub(1)), binary)),
                     _ => None,
                 };
                 Ok(PairOut::Trace(TracePair { a, b, inner }))
@@ -174,7 +174,12 @@ pub fn ser_pair<D: Decl>(
 }
 
 pub fn trace_pair<D: Decl>(shape: ShapeId, core: bool, aux: &Aux, raws: Vec<D::TwinInner>, fail_at: Option<usize>) -> Result<TracePair, String> {
-    let v = SerVisitor::<D> { mode: Mode::Trace { fail_at }, aux, raws, bare: shape == ShapeId::Bare };
+    trace_pair_as::<D>(shape, core, aux, raws, fail_at, false)
+}
+
+/// As `trace_pair`, with a peer that reports `is_human_readable() == !binary`.
+pub fn trace_pair_as<D: Decl>(shape: ShapeId, core: bool, aux: &Aux, raws: Vec<D::TwinInner>, fail_at: Option<usize>, binary: bool) -> Result<TracePair, String> {
+    let v = SerVisitor::<D> { mode: Mode::Trace { fail_at, binary }, aux, raws, bare: shape == ShapeId::Bare };
     let r = { let _ = core; <D::Shapes as shapes::ShapeSet>::dispatch::<D, _>(shape, v) };
     match r? {
         PairOut::Trace(p) => Ok(p),
